@@ -77,18 +77,27 @@ Section FromNetwork.
     exists c, resolve_evidence net ev = Some c /\
       let q := joint_expect net (fun a => ind (ev_holds c a)) in
       (forall n, expect (run p n) (fun s => qnat (s (length net))) = geom (1 - q) n) /\
-      (forall n, (q * geom (1 - q) n = 1 - qpow (1 - q) (S n))%Qc) /\
-      ((0 < q)%Qc -> (q <= 1)%Qc ->
-       is_lim_seq (fun n => Q2R (expect (run p n) (fun s => qnat (s (length net))))) (/ Q2R q)%R).
+      (forall n, (q * geom (1 - q) n = 1 - qpow (1 - q) (S n))%Qc).
   Proof.
     intros Hc. destruct (codegen_gen_body _ _ _ Hc) as [body Hg].
     destruct (sampling_time_program net ev p Hwf (gen_body_nodup net body Hwf Hg) Hc) as [c [Hr Hn]].
-    exists c. split; [exact Hr|]. cbv zeta. split; [exact Hn|]. split.
-    - intros n. apply sampling_closed_form.
-    - intros H0 H1.
-      apply (is_lim_seq_ext (fun n => Q2R (geom (1 - joint_expect net (fun a => ind (ev_holds c a))) n))).
-      + intros n. rewrite Hn. reflexivity.
-      + apply sampling_time_limit; assumption.
+    exists c. split; [exact Hr|]. cbv zeta. split; [exact Hn|].
+    intros n. apply sampling_closed_form.
+  Qed.
+
+  (* the limit (real numbers: Coquelicot, hence the axioms of Coq's Reals) *)
+  Theorem sampling_time_limit_of_wf_network ev p :
+    codegen net (QSample ev) = Some p ->
+    exists c, resolve_evidence net ev = Some c /\
+      let q := joint_expect net (fun a => ind (ev_holds c a)) in
+      ((0 < q)%Qc -> (q <= 1)%Qc ->
+       is_lim_seq (fun n => Q2R (expect (run p n) (fun s => qnat (s (length net))))) (/ Q2R q)%R).
+  Proof.
+    intros Hc. destruct (sampling_time_of_wf_network ev p Hc) as [c [Hr [Hn _]]].
+    exists c. split; [exact Hr|]. cbv zeta in *. intros H0 H1.
+    apply (is_lim_seq_ext (fun n => Q2R (geom (1 - joint_expect net (fun a => ind (ev_holds c a))) n))).
+    - intros n. rewrite Hn. reflexivity.
+    - apply sampling_time_limit; assumption.
   Qed.
 End FromNetwork.
 
